@@ -1,5 +1,6 @@
 import PbVerif.Lemmas.Wrapper
 import PbVerif.Lemmas.Perm
+import PbVerif.Gen.Registry
 /-! C01 — every call returns a well-formed (baseline, params) pair or raises: shape / order / dtype
 rule of the wrapper and length / stop-reason theorems of the loop skeleton. That each of the 95
 numerical cores preserves the length of its input and yields finite numbers on noisy finite data is
@@ -42,5 +43,16 @@ theorem loop_stop_reason (budget : Nat) (tol : Rat) (d : Nat → Rat) (exit : Na
 example : runLoop 5 (1/10) (fun k => 1 / ((k : Rat) + 1)) (fun _ => false) = (5, .exhausted) ∧
     runLoop 20 (1/10) (fun k => 1 / ((k : Rat) + 1)) (fun _ => false) = (11, .converged) ∧
     runLoop 20 (1/10) (fun k => 1 / ((k : Rat) + 1)) (fun k => k == 3) = (3, .early) := by decide +kernel
+
+/-! ### table obligation over the regenerated method registry (Route A, `Gen/Registry`) -/
+open PbVerif.Gen in
+/-- a 2-D method whose core works on flattened arrays (`reshape_baseline`) names its per-point outputs in `reshape_keys`,
+and no public method hands back a flat per-point array (observed on one probe call per method, every run) -/
+def rowShaped (r : MethodRow) : Bool :=
+  r.probed && r.flatKeys.isEmpty && (!r.twoD || r.skipSorting || r.reshapeKeys.all fun k => r.sortKeys.contains k)
+
+open PbVerif.Gen in
+theorem registry_perpoint_keys_shaped :
+    registry.all rowShaped = true ∧ registryTranslated = true ∧ 90 ≤ registry.length := by decide +kernel
 
 end PbVerif.C01
